@@ -9,6 +9,7 @@ import (
 	"os"
 	"path/filepath"
 	"reflect"
+	"strings"
 	"sync/atomic"
 	"syscall"
 	"testing"
@@ -16,6 +17,7 @@ import (
 	"unsafe"
 
 	"github.com/hashicorp/raft"
+	lblog "github.com/liftbridge-io/liftbridge/server/logger"
 	"github.com/nats-io/nats.go"
 	"github.com/nats-io/nuid"
 
@@ -59,6 +61,8 @@ type h3 struct {
 	nextSim int
 	stop    bool
 	cfgHook func(n *simNode, c *Config)
+	verbose bool
+	logHits map[string]int // server log messages of interest, counted over all servers
 	client  *nats.Conn
 }
 
@@ -89,6 +93,9 @@ func (h *h3) config(n *simNode, peers []string) *Config {
 		c.Clustering.RaftBootstrapSeed = true
 	}
 	c.LogSilent = true
+	if os.Getenv("VERIF_SERVER_LOG") != "" { // debugging aid: the servers' own log on stdout (same level: formatting calls String() methods that lock)
+		c.LogSilent = false
+	}
 	c.EmbeddedNATS = false
 	c.Telemetry.Enabled = false
 	c.CursorsStream.Partitions = 0
@@ -113,6 +120,7 @@ func (h *h3) startNode(i int) error {
 	var err error
 	crashed := h.do(n.node, "start:"+n.id, func() {
 		n.srv = New(h.config(n, peers))
+		n.srv.logger = &spyLogger{Logger: n.srv.logger, hits: h.logHits}
 		err = n.srv.startSim()
 	})
 	if crashed {
@@ -237,7 +245,7 @@ func runH3(t *testing.T, prog *hx.Program, dec *simrt.Decider, verbose bool, nse
 		return oc
 	}
 	defer os.RemoveAll(dir)
-	h := &h3{t: t, oc: oc, prog: prog, dir: dir, nextSim: 10}
+	h := &h3{t: t, oc: oc, prog: prog, dir: dir, nextSim: 10, verbose: verbose, logHits: map[string]int{}}
 	cfg := simrt.Config{
 		StickyPct:  int(prog.Param("sticky", 80)),
 		LockYield:  int(prog.Param("lockyield", 100)),
@@ -357,4 +365,20 @@ func lastIndexByte(s string, b byte) int {
 		}
 	}
 	return -1
+}
+
+// spyLogger delegates to the server's own logger (so the instrumented code runs exactly as it
+// would) and counts the messages the harness classifies findings by.
+type spyLogger struct {
+	lblog.Logger
+	hits map[string]int
+}
+
+func (l *spyLogger) Errorf(format string, v ...interface{}) {
+	for _, k := range []string{"Failed to fetch last offset for leader epoch"} {
+		if strings.HasPrefix(format, k) {
+			l.hits[k]++
+		}
+	}
+	l.Logger.Errorf(format, v...)
 }
